@@ -825,4 +825,57 @@ theorem first_le_feeAll_p2wpkh {cfg : Cfg} {b : Bool} (hE : EstOK cfg b) (hF : F
   · omega
   · exact h1
 
+/-- An input source that offers `coins`: every fetch hands out a prefix of them, reports its true total, and stops
+    short of the target only when nothing is left. -/
+structure Offers {σ : Type} (src : Source σ) (Inv : σ → Prop) (coins : List Coin) : Prop where
+  fetch_ok : ∀ s t, Inv s → ∃ s' f rest, src.fetch s t = (s', some f) ∧ Inv s' ∧ f.coins ++ rest = coins ∧
+    f.total = sumCoins f.coins ∧ (f.total < t → rest = [])
+
+theorem loop_insufficient_offers {σ : Type} {src : Source σ} {Inv : σ → Prop} {coins : List Coin}
+    (hoff : Offers src Inv coins) {cfg : Cfg} {b : Bool} (hE : EstOK cfg b) (hF : FeeOK cfg) (hS : SumOK cfg)
+    {rate : Int} (hr : 1000 ≤ rate) (outs : List TxOut) (cs : ChangeSource) :
+    ∀ (fuel : Nat) (s : σ) (tf : Int) (tr : List Int), Inv s →
+      tf ≤ feeAll b rate outs cs coins →
+      (loop cfg src outs rate cs fuel s tf tr).1 = .err .insufficient →
+      sumCoins coins < sumOuts outs + feeAll b rate outs cs coins := by
+  intro fuel
+  induction fuel with
+  | zero => intro s tf tr _ _ h; simp [loop] at h
+  | succ n ih =>
+    intro s tf tr hI htf h
+    obtain ⟨s', f, rest, hf, hI', hsplit, htot, hstop⟩ := hoff.fetch_ok s (cfg.sumValues outs + tf) hI
+    simp only [loop, hf] at h
+    split at h
+    · rename_i hlt
+      have hnil := hstop hlt
+      rw [hnil, List.append_nil] at hsplit
+      rw [hsplit] at htot
+      have hsum := hS.sum_eq outs
+      omega
+    · split at h
+      · apply ih _ _ _ hI' _ h
+        have := maxReq_le_feeAll hE hF hr outs cs f.coins rest
+        rw [hsplit] at this
+        exact this
+      · split at h
+        · simp at h
+        · split at h <;> simp at h
+
+theorem constSource_offers (coins : List Coin) : Offers constSource (fun s => s = coins) coins := by
+  constructor
+  intro s t hs
+  subst hs
+  exact ⟨s, ⟨sumCoins s, s⟩, [], rfl, rfl, by simp, rfl, fun _ => rfl⟩
+
+theorem prefixSource_offers (coins : List Coin) : Offers prefixSource (PInv coins) coins := by
+  constructor
+  intro s t hI
+  obtain ⟨_, _, hstop, _, _⟩ := fill_inv t s.rest s.total s.taken
+  have hI' := pinv_fill hI t
+  refine ⟨_, _, (fill t s.total s.taken s.rest).rest, rfl, hI', hI'.split, hI'.total, ?_⟩
+  intro hlt
+  rcases hstop with h | h
+  · simp only [] at hlt; omega
+  · exact h
+
 end AuthorSpec
